@@ -73,7 +73,13 @@ func drawStructOf(t *rapid.T) reflect.Type {
 			Type: structOfFieldTypes[sim.Intn(t, len(structOfFieldTypes), "ftype")],
 		}
 		// json tags (names from a pool that cannot collide with any field name)
-		switch sim.Weighted(t, "tag", 6, 1, 1, 1, 1) {
+		switch sim.Weighted(t, "tag", 6, 1, 1, 1, 1, 1, 1, 1) {
+		case 5, 6, 7:
+			// the ",string" option (numbers and booleans written as quoted text), alone and combined
+			switch f.Type.Kind() {
+			case reflect.Int, reflect.Int8, reflect.Int16, reflect.Int32, reflect.Int64, reflect.Uint16, reflect.Uint32, reflect.Uint, reflect.Uint64, reflect.Float32, reflect.Float64, reflect.Bool:
+				f.Tag = reflect.StructTag([]string{`json:",string"`, `json:",omitempty,string"`, fmt.Sprintf(`json:"s%d,string"`, i)}[sim.Intn(t, 3, "stringtag")])
+			}
 		case 1:
 			f.Tag = reflect.StructTag(fmt.Sprintf(`json:"t%d"`, i))
 		case 2:
@@ -98,7 +104,8 @@ func drawStructOf(t *rapid.T) reflect.Type {
 }
 
 var c16Strings = []string{"", "a", "x y", "é", "a\"b", "line\nbreak", "123", "true", "null", "-", "{}", "日本"}
-var c16Floats = []float64{0, 1.5, -2.25, 0.1, 1e21, 1e-7, 123456789.125, 3, -7, 0.30000000000000004}
+var c16Floats = []float64{0, 1.5, -2.25, 0.1, 1e21, 1e-7, 123456789.125, 3, -7, 0.30000000000000004,
+	math.Pi, 1234.56789, 16777217, 1e39, 1e-50, -1.7976931348623157e308, 4.9e-324, 0.1234567890123456, 100000000.5}
 
 func usesInterface(rt reflect.Type, depth int) bool {
 	if depth > 4 {
@@ -355,6 +362,7 @@ type op16 struct {
 	StructOf bool
 	BigInts  int
 	Tags     bool // UseTags on the alt and sen routes (the oj route always writes with GoOptions)
+	ByPtr    bool // the value is handed to Decompose / Marshal / Bytes through a pointer (addressable) or by value
 }
 
 func typeLabel(rt reflect.Type) string {
@@ -373,7 +381,7 @@ func (o *op16) String() string {
 	case "wrong-shape":
 		return "Recompose(wrong shape) into " + typeLabel(o.Type)
 	}
-	return fmt.Sprintf("%s %s value=%s tags=%v", []string{"alt.Recompose(alt.Decompose(v))", "oj.Unmarshal(oj.Marshal(v))", "sen.Unmarshal(sen.Bytes(v))"}[o.Route], typeLabel(o.Type), derefAll(o.Value), o.Tags)
+	return fmt.Sprintf("%s %s value=%s tags=%v", []string{"alt.Recompose(alt.Decompose(v))", "oj.Unmarshal(oj.Marshal(v))", "sen.Unmarshal(sen.Bytes(v))"}[o.Route], typeLabel(o.Type), derefAll(o.Value), o.Tags) + map[bool]string{true: " by pointer", false: ""}[o.ByPtr]
 }
 
 func drawOp16(t *rapid.T) *op16 {
@@ -399,6 +407,7 @@ func drawOp16(t *rapid.T) *op16 {
 		fill(t, o.Value, 3)
 		bigIntMode = 0
 		o.Route = sim.Intn(t, 3, "route")
+		o.ByPtr = sim.Bool(t, "byptr")
 		// a type whose json tags overlap other fields' names is only unambiguous when the tags are used throughout
 		o.Tags = sim.Bool(t, "usetags") || o.Type == reflect.TypeOf(za.Overlap{}) || o.Type == reflect.TypeOf(za.OverlapEmb{})
 	}
@@ -457,6 +466,9 @@ func (o *op16) run(r *alt.Recomposer) (res res16) {
 		return
 	}
 	v := o.Value.Interface()
+	if o.ByPtr {
+		v = o.Value.Addr().Interface()
+	}
 	target := reflect.New(o.Type)
 	var err error
 	opt := ojg.Options{CreateKey: "type", UseTags: o.Tags}
